@@ -176,6 +176,7 @@ fn block_on<F: Future>(f: F) -> F::Output {
 #[kani::stub(Mac::get_fcnt_up, stub_get_fcnt_up)]
 #[kani::unwind(6)]
 fn async_send_faults() {
+    crate::mac::verif_kani_lorawan_device_mac_common::vinit();
     let start: u32 = kani::any();
     unsafe {
         G_FCNT = start;
@@ -189,15 +190,15 @@ fn async_send_faults() {
     let r = block_on(dev.send(&payload, 1, kani::any()));
     let handed = dev.radio.tx_calls > 0;
     unsafe {
-        assert!(G_BUILT == 1, "C06: one frame per send");
+        crate::vcheck!(G_BUILT == 1, "C06: one frame per send");
         if handed {
             let expired = matches!(r, Ok(SendResponse::SessionExpired));
-            assert!(G_FCNT > start || (start == u32::MAX && expired),
+            crate::vcheck!(G_FCNT > start || (start == u32::MAX && expired),
                 "C06: a frame was handed to the radio but FCntUp was not advanced (nor session expiry reported) when send() returned: the next uplink reuses the counter");
         } else {
-            assert!(G_FCNT == start, "C06: no counter is consumed when nothing was handed to the radio");
+            crate::vcheck!(G_FCNT == start, "C06: no counter is consumed when nothing was handed to the radio");
         }
-        assert!(G_FCNT <= start.saturating_add(1), "C06: one send consumes at most one counter value");
+        crate::vcheck!(G_FCNT <= start.saturating_add(1), "C06: one send consumes at most one counter value");
         kani::cover!(r.is_ok() && dev.radio.fail_at > 8, "fault-free send completes");
         kani::cover!(r.is_err() && dev.radio.tx_ok == 1, "radio fault after a successful transmission");
     }
